@@ -7,9 +7,9 @@ From OIDC Require Import C05_token_RProvider_proofs C05_token_RLegacy_proofs C05
 
 (* ---------------- success is justified *)
 
-Lemma token_success_justified : forall i,
+Lemma token_success_justified_lax : forall i,
   i_endpoint i = EToken -> known_gap i = false -> names_other (i_pres i) = false ->
-  success (model i) = true -> token_justified (i_cfg i) (i_reg i) (i_pres i) (i_grant i) = true.
+  success (model i) = true -> token_justified_lax (i_cfg i) (i_reg i) (i_pres i) (i_grant i) = true.
 Proof.
   intro i. destruct (i_router i) eqn:E.
   - now apply token_success_justified_RProvider.
@@ -23,9 +23,9 @@ Lemma token_gap_still_authenticated : forall i,
   capability (i_cfg i) GDevice = true /\
   cred_valid (i_cfg i) (i_reg i) (i_pres i) true = true.
 Proof.
-  intro i; open_input i; cbn [i_endpoint i_cfg i_reg i_pres i_grant i_router i_pl i_prev].
+  intro i; open_input i; cbn [i_endpoint i_cfg i_reg i_pres i_grant i_router i_pl i_prev i_art].
   all: intros -> Hgap Hno.
-  all: unfold model, known_gap in *; cbn [i_endpoint i_cfg i_reg i_pres i_grant i_router i_pl i_prev] in *.
+  all: unfold model, known_gap in *; cbn [i_endpoint i_cfg i_reg i_pres i_grant i_router i_pl i_prev i_art] in *.
   all: destruct r, g; try discriminate Hgap.
   all: destruct p as [| |[] ?| |[]|[]|[]| | | |[] []|?|?|?|?|?|[] []|?]; try discriminate Hno; clear Hno.
   all: destruct meth; cbn; split_goal; split; reflexivity.
@@ -35,8 +35,8 @@ Lemma introspect_success_justified : forall i,
   i_endpoint i = EIntrospect -> names_other (i_pres i) = false ->
   success (model i) = true -> introspect_justified (i_reg i) (i_pres i) = true.
 Proof.
-  intro i; open_input i; cbn [i_endpoint i_cfg i_reg i_pres i_grant i_router i_pl i_prev].
-  all: intros -> Hno; unfold model; cbn [i_endpoint i_cfg i_reg i_pres i_grant i_router i_pl i_prev] in *.
+  intro i; open_input i; cbn [i_endpoint i_cfg i_reg i_pres i_grant i_router i_pl i_prev i_art].
+  all: intros -> Hno; unfold model; cbn [i_endpoint i_cfg i_reg i_pres i_grant i_router i_pl i_prev i_art] in *.
   all: destruct p as [| |[] ?| |[]|[]|[]| | | |[] []|?|?|?|?|?|[] []|?]; try discriminate Hno; clear Hno.
   all: destruct r, meth; cbn; split_goal.
 Qed.
@@ -45,8 +45,8 @@ Lemma revoke_success_justified : forall i,
   i_endpoint i = ERevoke -> names_other (i_pres i) = false ->
   success (model i) = true -> revoke_justified (i_reg i) (i_pres i) = true.
 Proof.
-  intro i; open_input i; cbn [i_endpoint i_cfg i_reg i_pres i_grant i_router i_pl i_prev].
-  all: intros -> Hno; unfold model; cbn [i_endpoint i_cfg i_reg i_pres i_grant i_router i_pl i_prev] in *.
+  intro i; open_input i; cbn [i_endpoint i_cfg i_reg i_pres i_grant i_router i_pl i_prev i_art].
+  all: intros -> Hno; unfold model; cbn [i_endpoint i_cfg i_reg i_pres i_grant i_router i_pl i_prev i_art] in *.
   all: destruct p as [| |[] ?| |[]|[]|[]| | | |[] []|?|?|?|?|?|[] []|?]; try discriminate Hno; clear Hno.
   all: destruct r, meth; cbn; split_goal.
 Qed.
@@ -55,8 +55,8 @@ Lemma device_authz_success_justified : forall i,
   i_endpoint i = EDeviceAuthz -> names_other (i_pres i) = false ->
   success (model i) = true -> device_authz_justified (i_reg i) (i_pres i) = true.
 Proof.
-  intro i; open_input i; cbn [i_endpoint i_cfg i_reg i_pres i_grant i_router i_pl i_prev].
-  all: intros -> Hno; unfold model; cbn [i_endpoint i_cfg i_reg i_pres i_grant i_router i_pl i_prev] in *.
+  intro i; open_input i; cbn [i_endpoint i_cfg i_reg i_pres i_grant i_router i_pl i_prev i_art].
+  all: intros -> Hno; unfold model; cbn [i_endpoint i_cfg i_reg i_pres i_grant i_router i_pl i_prev i_art] in *.
   all: destruct p as [| |[] ?| |[]|[]|[]| | | |[] []|?|?|?|?|?|[] []|?]; try discriminate Hno; clear Hno.
   all: destruct r, meth; cbn; split_goal.
 Qed.
@@ -80,8 +80,8 @@ Lemma self_never_other : forall i,
   names_other_client (i_pres i) = None ->
   match model i with ORes _ _ _ _ WOther => False | _ => True end.
 Proof.
-  intros [r e c rg p g pl pv] H; cbn [i_pres] in H. unfold model; cbn [i_pres]. rewrite H.
-  destruct (by_grant_assertion _); destruct (authenticate _ _ _ _ _ _ _ _); exact I.
+  intros [r e c rg p g pl pv ar] H; cbn [i_pres] in H. unfold model; cbn [i_pres]. rewrite H.
+  destruct (by_grant_assertion _); destruct (authenticate _ _ _ _ _ _ _ _ _); exact I.
 Qed.
 
 (* acting for the other client is justified by the other client's registration *)
@@ -97,16 +97,93 @@ Proof.
       destruct (model i) as [s e tok act w| |]; try exact I. destruct s, w; try exact I; contradiction. }
   revert En; open_input i; cbn [i_pres]; intro En.
   all: destruct p as [| |[] ?| |[]|[]|[]| | | |[] []|?|?|[[] ?]|[[] ?]|[[] ?]|[] []|?]; try discriminate En; clear En.
-  all: unfold model, other_gap; cbn [i_endpoint i_cfg i_reg i_pres i_grant i_router i_pl i_prev].
+  all: unfold model, other_gap; cbn [i_endpoint i_cfg i_reg i_pres i_grant i_router i_pl i_prev i_art].
   all: destruct e; [destruct g| | |]; destruct r; cbn; intro Hgap; split_goal; try exact I.
 Qed.
 
 (* ---------------- the predicate on the model *)
 
-Lemma justified_model : forall i,
-  known_gap i = false -> names_other (i_pres i) = false -> success (model i) = true -> justified i = true.
+Lemma justified_lax_model : forall i,
+  known_gap i = false -> names_other (i_pres i) = false -> success (model i) = true -> justified_lax i = true.
 Proof.
-  intros i Hg Hn Hs. unfold justified.
+  intros i Hg Hn Hs. unfold justified_lax.
+  destruct (i_endpoint i) eqn:He.
+  - now apply token_success_justified_lax.
+  - now apply introspect_success_justified.
+  - now apply revoke_success_justified.
+  - now apply device_authz_success_justified.
+Qed.
+
+(* ---------------- round 11: the transport rule ("via Basic or - if enabled - POST") *)
+
+Lemma secret_as_enabled_presents : forall c p, secret_as_enabled c p = true -> presents_right_secret p = true.
+Proof.
+  intros c p; unfold secret_as_enabled; destruct (f_post c);
+    destruct p as [| |[] ?| |[]|[]|[]| | | |[] []|?|?|?|?|?|[] []|?]; cbn; congruence.
+Qed.
+
+Lemma cred_strict_to_lax : forall c rg p b, cred_valid c rg p b = true -> cred_valid_lax c rg p b = true.
+Proof.
+  intros c rg p b; unfold cred_valid, cred_valid_lax.
+  destruct (r_known rg); cbn; [|congruence].
+  destruct (r_meth rg); try congruence; apply secret_as_enabled_presents.
+Qed.
+
+Lemma cred_lax_to_strict : forall c rg p b,
+  cred_valid_lax c rg p b = true ->
+  secret_not_post (r_meth rg) && form_only_while_post_off c p = false ->
+  cred_valid c rg p b = true.
+Proof.
+  intros c rg p b; unfold cred_valid, cred_valid_lax, form_only_while_post_off, secret_as_enabled.
+  destruct (r_known rg); cbn; [|congruence].
+  destruct (r_meth rg); cbn; try congruence; destruct (f_post c);
+    destruct p as [| |[] ?| |[]|[]|[]| | | |[] []|?|?|?|?|?|[] []|?]; cbn; congruence.
+Qed.
+
+(* the two token-endpoint handlers of the Provider router that do not read form credentials (token
+   exchange: Basic only; device_code: ClientIDFromRequest - Basic or assertion) give a client held to
+   its secret nothing unless that secret is in the Authorization header *)
+Lemma form_secret_unread : forall c rg p g pl pv ar,
+  g = GTE \/ g = GDevice -> secret_not_post (r_meth rg) = true -> secret_in_basic p = false ->
+  names_other p = false ->
+  success (model (mkInput RProvider EToken c rg p g pl pv ar)) = false.
+Proof.
+  intros c rg p g pl pv ar Hg Hm Hb Hno.
+  destruct pl as [gp cp ap]; destruct c as [fpost fpk fref ccc cte cdev cjp csub]; destruct rg as [known meth app gs key].
+  cbn in Hm. unfold model; cbn [i_endpoint i_cfg i_reg i_pres i_grant i_router i_pl i_prev i_art].
+  destruct p as [| |[] ?| |[]|[]|[]| | | |[] []|?|?|?|?|?|[] []|?]; try discriminate Hb; try discriminate Hno; clear Hb Hno.
+  all: destruct Hg as [-> | ->]; destruct meth; try discriminate Hm; cbn; split_goal.
+Qed.
+
+Lemma token_success_justified : forall i,
+  i_endpoint i = EToken -> known_gap i = false -> post_gap i = false -> names_other (i_pres i) = false ->
+  success (model i) = true -> token_justified (i_cfg i) (i_reg i) (i_pres i) (i_grant i) = true.
+Proof.
+  intros i He Hg Hpg Hno Hs.
+  pose proof (token_success_justified_lax i He Hg Hno Hs) as Hl.
+  destruct i as [r e c rg p g pl pv ar]; cbn [i_endpoint i_cfg i_reg i_pres i_grant i_router] in *; subst e.
+  unfold post_gap in Hpg; cbn [i_endpoint i_cfg i_reg i_pres i_grant i_router] in Hpg.
+  destruct (secret_not_post (r_meth rg) && form_only_while_post_off c p) eqn:Hcls.
+  2:{ unfold token_justified_lax in Hl; unfold token_justified.
+      destruct g; try exact Hl.
+      all: apply andb_true_iff in Hl as [Hcr Hcv]; rewrite Hcr; cbn [andb]; now apply cred_lax_to_strict. }
+  apply andb_true_iff in Hcls as [Hm Hf].
+  rewrite Hm, Hf, !andb_true_r in Hpg.
+  assert (Hb : secret_in_basic p = false).
+  { unfold form_only_while_post_off in Hf. apply andb_true_iff in Hf as [_ Hf]. now apply negb_true_iff in Hf. }
+  assert (Hte : success (model (mkInput RProvider EToken c rg p GTE pl pv ar)) = false)
+    by (apply form_secret_unread; auto).
+  assert (Hdv : success (model (mkInput RProvider EToken c rg p GDevice pl pv ar)) = false)
+    by (apply form_secret_unread; auto).
+  destruct r, g; try discriminate Hpg; try congruence;
+    unfold token_justified_lax in Hl; unfold token_justified; cbn [capability andb] in Hl; try discriminate Hl; exact Hl.
+Qed.
+
+Lemma justified_model : forall i,
+  known_gap i = false -> post_gap i = false -> names_other (i_pres i) = false -> success (model i) = true ->
+  justified i = true.
+Proof.
+  intros i Hg Hpg Hn Hs. unfold justified.
   destruct (i_endpoint i) eqn:He.
   - now apply token_success_justified.
   - now apply introspect_success_justified.
@@ -120,20 +197,22 @@ Lemma names_other_model : forall i,
   names_other (i_pres i) = true ->
   match model i with
   | ORes S2 _ _ _ WOther => True
-  | ORes S2 _ _ _ _ => justified i = true
+  | ORes S2 _ _ _ WSelf => justified i = true
+  | ORes S2 _ _ _ WNone => justified i || other_justified i = true
   | _ => True
   end.
 Proof.
   intro i; open_input i; cbn [i_pres]; intro Hno.
   all: destruct p as [| |[] ?| |[]|[]|[]| | | |[] []|?|?|[[] ?]|[[] ?]|[[] ?]|[] []|?]; try discriminate Hno; clear Hno.
-  all: unfold model; cbn [i_endpoint i_cfg i_reg i_pres i_grant i_router i_pl i_prev].
-  all: destruct e; [destruct g| | |]; destruct r; cbn; split_goal; exact I.
+  all: unfold model; cbn [i_endpoint i_cfg i_reg i_pres i_grant i_router i_pl i_prev i_art].
+  all: destruct e; [destruct g| | |]; destruct r; cbn; split_goal; try exact I; rewrite ?orb_true_r; reflexivity.
 Qed.
 
-Theorem spec_model : forall i, known_gap i = false -> other_gap i = false -> spec i (model i) = true.
+Theorem spec_model : forall i,
+  known_gap i = false -> post_gap i = false -> other_gap i = false -> spec i (model i) = true.
 Proof.
-  intros i Hg Hog.
-  pose proof (justified_model i Hg) as Hj.
+  intros i Hg Hpg Hog.
+  pose proof (justified_model i Hg Hpg) as Hj.
   pose proof (names_other_model i) as Hn.
   pose proof (refusal_shape_model i) as Hr.
   pose proof (other_model i Hog) as Ho.
@@ -141,12 +220,12 @@ Proof.
   destruct s; try exact Hr.
   subst e. cbn [andb].
   destruct w; try exact Ho.
-  all: destruct (names_other (i_pres i)) eqn:E; [exact (Hn eq_refl)|apply Hj; reflexivity].
+  all: destruct (names_other (i_pres i)) eqn:E; [exact (Hn eq_refl)|rewrite ?Hj; reflexivity].
 Qed.
 
 Definition gap_witness : input :=
   mkInput RProvider EToken (mkCfg true true true true true true true false)
-          (mkReg true MNone ANative [GCode; GRefresh] false) PIdOnly GDevice (mkPl GPBody InBody InBody) NoPrev.
+          (mkReg true MNone ANative [GCode; GRefresh] false) PIdOnly GDevice (mkPl GPBody InBody InBody) NoPrev ArtOk.
 
 Lemma spec_model_refuted : exists i, spec i (model i) = false.
 Proof. exists gap_witness. vm_compute. reflexivity. Qed.
@@ -155,19 +234,35 @@ Proof. exists gap_witness. vm_compute. reflexivity. Qed.
 
 (* the full statement for the token endpoint (what the property asks); see C05_token_refuted *)
 Definition token_statement : Prop :=
-  forall r c rg p g pl pv,
+  forall r c rg p g pl pv ar,
     names_other p = false ->
-    success (model (mkInput r EToken c rg p g pl pv)) = true ->
+    success (model (mkInput r EToken c rg p g pl pv ar)) = true ->
     token_justified c rg p g = true.
 
-Lemma token_partial : forall r c rg p g pl pv,
+(* outside the device gap: everything but the transport rule, for every input *)
+Lemma token_partial_lax : forall r c rg p g pl pv ar,
   (r = RProvider /\ g = GDevice /\ registered rg GDevice = false -> False) ->
   names_other p = false ->
-  success (model (mkInput r EToken c rg p g pl pv)) = true ->
+  success (model (mkInput r EToken c rg p g pl pv ar)) = true ->
+  token_justified_lax c rg p g = true.
+Proof.
+  intros r c rg p g pl pv ar Hn Hno Hs.
+  apply (token_success_justified_lax (mkInput r EToken c rg p g pl pv ar)); [reflexivity| |exact Hno|exact Hs].
+  unfold known_gap; cbn [i_router i_endpoint i_grant i_reg].
+  destruct r; try reflexivity. destruct g; try reflexivity.
+  destruct (registered rg GDevice) eqn:E; [reflexivity|].
+  exfalso; apply Hn; auto.
+Qed.
+
+Lemma token_partial : forall r c rg p g pl pv ar,
+  (r = RProvider /\ g = GDevice /\ registered rg GDevice = false -> False) ->
+  post_gap (mkInput r EToken c rg p g pl pv ar) = false ->
+  names_other p = false ->
+  success (model (mkInput r EToken c rg p g pl pv ar)) = true ->
   token_justified c rg p g = true.
 Proof.
-  intros r c rg p g pl pv Hn Hno Hs.
-  apply (token_success_justified (mkInput r EToken c rg p g pl pv)); [reflexivity| |exact Hno|exact Hs].
+  intros r c rg p g pl pv ar Hn Hpg Hno Hs.
+  apply (token_success_justified (mkInput r EToken c rg p g pl pv ar)); [reflexivity| |exact Hpg|exact Hno|exact Hs].
   unfold known_gap; cbn [i_router i_endpoint i_grant i_reg].
   destruct r; try reflexivity. destruct g; try reflexivity.
   destruct (registered rg GDevice) eqn:E; [reflexivity|].
@@ -178,45 +273,128 @@ Lemma token_refuted : ~ token_statement.
 Proof.
   intro H.
   specialize (H RProvider (mkCfg true true true true true true true false)
-                (mkReg true MNone ANative [GCode; GRefresh] false) PIdOnly GDevice (mkPl GPBody InBody InBody) NoPrev).
+                (mkReg true MNone ANative [GCode; GRefresh] false) PIdOnly GDevice (mkPl GPBody InBody InBody) NoPrev ArtOk).
   vm_compute in H. specialize (H eq_refl eq_refl). discriminate H.
 Qed.
 
-Lemma token_gap : forall c rg p pl pv,
+(* finding Fxx-C05-6: AuthMethodPost off, client registered client_secret_basic, exact secret as a form
+   parameter, authorization_code grant on the Provider router -> tokens *)
+Definition post_gap_witness : input :=
+  mkInput RProvider EToken (mkCfg false true true true true true true false)
+          (mkReg true MBasic AWeb [GCode] false) (PPost SRight) GCode (mkPl GPBody InBody InBody) NoPrev ArtOk.
+
+(* the statement without the post guard is false too, also outside the device gap *)
+Lemma token_post_refuted : ~ (forall r c rg p g pl pv ar,
+  (r = RProvider /\ g = GDevice /\ registered rg GDevice = false -> False) ->
+  names_other p = false ->
+  success (model (mkInput r EToken c rg p g pl pv ar)) = true -> token_justified c rg p g = true).
+Proof.
+  intro H.
+  specialize (H RProvider (mkCfg false true true true true true true false)
+                (mkReg true MBasic AWeb [GCode] false) (PPost SRight) GCode (mkPl GPBody InBody InBody) NoPrev ArtOk).
+  assert (Hn : RProvider = RProvider /\ GCode = GDevice /\
+               registered (mkReg true MBasic AWeb [GCode] false) GDevice = false -> False) by (intros [_ [E _]]; discriminate E).
+  specialize (H Hn eq_refl). vm_compute in H. specialize (H eq_refl). discriminate H.
+Qed.
+
+Lemma spec_model_post_refuted : exists i, known_gap i = false /\ other_gap i = false /\ spec i (model i) = false.
+Proof. exists post_gap_witness. vm_compute. repeat split; reflexivity. Qed.
+
+(* inside the post gap everything except the transport rule is still enforced: capability, grant
+   registration, a known client and its exact secret *)
+Lemma token_post_gap : forall r c rg p g pl pv ar,
+  post_gap (mkInput r EToken c rg p g pl pv ar) = true -> names_other p = false ->
+  success (model (mkInput r EToken c rg p g pl pv ar)) = true ->
+  capability c g = true /\ registered rg g = true /\ r_known rg = true /\ presents_right_secret p = true.
+Proof.
+  intros r c rg p g pl pv ar Hpg Hno Hs.
+  unfold post_gap in Hpg; cbn [i_endpoint i_cfg i_reg i_pres i_grant i_router] in Hpg.
+  apply andb_true_iff in Hpg as [Hpg _]. apply andb_true_iff in Hpg as [Hrf Hm].
+  assert (Hl : token_justified_lax c rg p g = true).
+  { apply (token_partial_lax r c rg p g pl pv ar); [|exact Hno|exact Hs].
+    intros [-> [-> _]]. discriminate Hrf. }
+  unfold token_justified_lax, cred_valid_lax in Hl.
+  destruct r, g; try discriminate Hrf.
+  all: apply andb_true_iff in Hl as [Hl Hcv]; apply andb_true_iff in Hl as [Hc Hr];
+    apply andb_true_iff in Hcv as [Hk Hp]; destruct (r_meth rg); try discriminate Hm; auto.
+Qed.
+
+Lemma token_gap : forall c rg p pl pv ar,
   registered rg GDevice = false -> names_other p = false ->
-  success (model (mkInput RProvider EToken c rg p GDevice pl pv)) = true ->
+  success (model (mkInput RProvider EToken c rg p GDevice pl pv ar)) = true ->
   c_dev c = true /\ cred_valid c rg p true = true.
 Proof.
-  intros c rg p pl pv Hn Hno Hs.
-  apply (token_gap_still_authenticated (mkInput RProvider EToken c rg p GDevice pl pv)); [reflexivity| |exact Hno|exact Hs].
+  intros c rg p pl pv ar Hn Hno Hs.
+  apply (token_gap_still_authenticated (mkInput RProvider EToken c rg p GDevice pl pv ar)); [reflexivity| |exact Hno|exact Hs].
   unfold known_gap; cbn. now rewrite Hn.
 Qed.
 
-Lemma introspect_statement : forall r c rg p g pl pv,
-  names_other p = false ->
-  success (model (mkInput r EIntrospect c rg p g pl pv)) = true -> authenticated rg p = true.
-Proof. intros r c rg p g pl pv. exact (introspect_success_justified (mkInput r EIntrospect c rg p g pl pv) eq_refl). Qed.
+Lemma token_gap_lax : forall c rg p pl pv ar,
+  registered rg GDevice = false -> names_other p = false ->
+  success (model (mkInput RProvider EToken c rg p GDevice pl pv ar)) = true ->
+  c_dev c = true /\ cred_valid_lax c rg p true = true.
+Proof.
+  intros c rg p pl pv ar Hn Hno Hs. destruct (token_gap c rg p pl pv ar Hn Hno Hs) as [H1 H2].
+  split; [exact H1|now apply cred_strict_to_lax].
+Qed.
 
-Lemma revoke_statement : forall r c rg p g pl pv,
+(* round 11: with AuthMethodPost off, outside the recorded class, a request whose Authorization
+   header does not carry the client's exact secret and that has no valid assertion obtains no
+   token for any client that is not public - in particular the exact secret as a form parameter
+   buys nothing: not for a client registered client_secret_post (any router, any grant), and not
+   for a client_secret_basic client on the handlers that honour the flag by construction
+   (Provider router: token exchange, device_code) *)
+Lemma post_disabled_form_secret_refused : forall r c rg p g pl pv ar,
+  f_post c = false -> post_gap (mkInput r EToken c rg p g pl pv ar) = false ->
+  secret_in_basic p = false -> presents_ok_assertion p = false ->
+  r_meth rg <> MNone -> g <> GBearer -> names_other p = false ->
+  success (model (mkInput r EToken c rg p g pl pv ar)) = false.
+Proof.
+  intros r c rg p g pl pv ar Hf Hpg Hb Ha Hm Hgb Hno.
+  destruct (success (model (mkInput r EToken c rg p g pl pv ar))) eqn:Hs; [|reflexivity].
+  assert (Hcv : forall b, cred_valid c rg p b = false).
+  { intro b. unfold cred_valid, secret_as_enabled. rewrite Hf, Hb, Ha.
+    destruct (r_meth rg); try congruence; cbn; now rewrite ?andb_false_r. }
+  destruct (known_gap (mkInput r EToken c rg p g pl pv ar)) eqn:Hg.
+  - unfold known_gap in Hg; cbn [i_router i_endpoint i_grant i_reg] in Hg.
+    destruct r, g; try discriminate Hg. apply negb_true_iff in Hg.
+    destruct (token_gap c rg p pl pv ar Hg Hno Hs) as [_ Hc]. rewrite Hcv in Hc. discriminate Hc.
+  - pose proof (token_success_justified (mkInput r EToken c rg p g pl pv ar) eq_refl Hg Hpg Hno Hs) as Hj.
+    cbn [i_cfg i_reg i_pres i_grant] in Hj. unfold token_justified in Hj. rewrite Hcv in Hj.
+    destruct g; try congruence; rewrite ?andb_false_r in Hj; discriminate Hj.
+Qed.
+
+(* the recorded class is exactly the handlers that read form credentials; e.g. on the Provider
+   router's token exchange the statement above applies to every client held to a secret *)
+Lemma post_gap_excludes_unread : forall r c rg p g pl pv ar,
+  reads_form_secret r g = false -> post_gap (mkInput r EToken c rg p g pl pv ar) = false.
+Proof. intros r c rg p g pl pv ar H. unfold post_gap; cbn [i_endpoint i_router i_grant]. now rewrite H. Qed.
+
+Lemma introspect_statement : forall r c rg p g pl pv ar,
   names_other p = false ->
-  success (model (mkInput r ERevoke c rg p g pl pv)) = true ->
+  success (model (mkInput r EIntrospect c rg p g pl pv ar)) = true -> authenticated rg p = true.
+Proof. intros r c rg p g pl pv ar. exact (introspect_success_justified (mkInput r EIntrospect c rg p g pl pv ar) eq_refl). Qed.
+
+Lemma revoke_statement : forall r c rg p g pl pv ar,
+  names_other p = false ->
+  success (model (mkInput r ERevoke c rg p g pl pv ar)) = true ->
   authenticated rg p = true \/ (r_known rg = true /\ r_meth rg = MNone /\ identifies p = true).
 Proof.
-  intros r c rg p g pl pv Hno Hs.
-  pose proof (revoke_success_justified (mkInput r ERevoke c rg p g pl pv) eq_refl Hno Hs) as H.
+  intros r c rg p g pl pv ar Hno Hs.
+  pose proof (revoke_success_justified (mkInput r ERevoke c rg p g pl pv ar) eq_refl Hno Hs) as H.
   cbn [i_reg i_pres] in H. unfold revoke_justified in H.
   apply orb_true_iff in H as [H|H]; [now left|right].
   apply andb_true_iff in H as [H H3]. apply andb_true_iff in H as [H1 H2].
   repeat split; try assumption. now destruct (r_meth rg).
 Qed.
 
-Lemma device_authz_statement : forall r c rg p g pl pv,
+Lemma device_authz_statement : forall r c rg p g pl pv ar,
   names_other p = false ->
-  success (model (mkInput r EDeviceAuthz c rg p g pl pv)) = true ->
+  success (model (mkInput r EDeviceAuthz c rg p g pl pv ar)) = true ->
   r_known rg = true /\ identifies p = true /\ registered rg GDevice = true.
 Proof.
-  intros r c rg p g pl pv Hno Hs.
-  pose proof (device_authz_success_justified (mkInput r EDeviceAuthz c rg p g pl pv) eq_refl Hno Hs) as H.
+  intros r c rg p g pl pv ar Hno Hs.
+  pose proof (device_authz_success_justified (mkInput r EDeviceAuthz c rg p g pl pv ar) eq_refl Hno Hs) as H.
   cbn [i_reg i_pres] in H. unfold device_authz_justified in H.
   apply andb_true_iff in H as [H H3]. apply andb_true_iff in H as [H1 H2]. auto.
 Qed.
@@ -291,23 +469,23 @@ Qed.
 (* the model never panics and never writes twice *)
 Lemma model_total : forall i, exists s e tok act w, model i = ORes s e tok act w.
 Proof.
-  intro i. unfold model. destruct (authenticate _ _ _ _ _ _ _); eauto 6.
+  intro i. unfold model. destruct (authenticate _ _ _ _ _ _ _ _ _); eauto 6.
 Qed.
 
 (* consequences spelled out for the cases the property text names *)
 
 (* an unknown client gets nothing anywhere *)
-Lemma unknown_client_refused : forall r e c rg p g pl pv,
-  r_known rg = false -> names_other p = false -> success (model (mkInput r e c rg p g pl pv)) = false.
+Lemma unknown_client_refused : forall r e c rg p g pl pv ar,
+  r_known rg = false -> names_other p = false -> success (model (mkInput r e c rg p g pl pv ar)) = false.
 Proof.
-  intros r e c rg p g pl pv Hk Hno.
-  destruct (success (model (mkInput r e c rg p g pl pv))) eqn:Hs; [|reflexivity].
-  assert (Hgap : known_gap (mkInput r e c rg p g pl pv) = false \/ known_gap (mkInput r e c rg p g pl pv) = true)
+  intros r e c rg p g pl pv ar Hk Hno.
+  destruct (success (model (mkInput r e c rg p g pl pv ar))) eqn:Hs; [|reflexivity].
+  assert (Hgap : known_gap (mkInput r e c rg p g pl pv ar) = false \/ known_gap (mkInput r e c rg p g pl pv ar) = true)
     by (destruct (known_gap _); auto).
   destruct Hgap as [Hg|Hg].
-  - pose proof (justified_model _ Hg Hno Hs) as Hj. unfold justified in Hj; cbn [i_endpoint i_cfg i_reg i_pres i_grant] in Hj.
+  - pose proof (justified_lax_model _ Hg Hno Hs) as Hj. unfold justified_lax in Hj; cbn [i_endpoint i_cfg i_reg i_pres i_grant] in Hj.
     destruct e; cbn in Hj.
-    + unfold token_justified, cred_valid in Hj. rewrite Hk in Hj.
+    + unfold token_justified_lax, cred_valid_lax in Hj. rewrite Hk in Hj.
       destruct g; cbn in Hj; rewrite ?andb_false_r in Hj; discriminate Hj.
     + unfold introspect_justified, authenticated in Hj. rewrite Hk in Hj. discriminate Hj.
     + unfold revoke_justified, authenticated in Hj. rewrite Hk in Hj. discriminate Hj.
@@ -315,29 +493,29 @@ Proof.
   - unfold known_gap in Hg; cbn [i_router i_endpoint i_grant i_reg] in Hg.
     destruct r, e, g; try discriminate Hg.
     apply negb_true_iff in Hg.
-    destruct (token_gap c rg p pl pv Hg Hno Hs) as [_ Hc]. unfold cred_valid in Hc. rewrite Hk in Hc. discriminate Hc.
+    destruct (token_gap_lax c rg p pl pv ar Hg Hno Hs) as [_ Hc]. unfold cred_valid_lax in Hc. rewrite Hk in Hc. discriminate Hc.
 Qed.
 
 (* a secret-registered client that presents neither its secret nor a valid assertion gets no
    token and no metadata *)
-Lemma wrong_secret_refused : forall r e c rg p g pl pv,
+Lemma wrong_secret_refused : forall r e c rg p g pl pv ar,
   has_secret (r_meth rg) = true -> presents_right_secret p = false -> presents_ok_assertion p = false ->
   e <> EDeviceAuthz -> g <> GBearer ->
-  success (model (mkInput r e c rg p g pl pv)) = false.
+  success (model (mkInput r e c rg p g pl pv ar)) = false.
 Proof.
-  intros r e c rg p g pl pv Hm Hp Ha He Hgb.
+  intros r e c rg p g pl pv ar Hm Hp Ha He Hgb.
   assert (Hno : names_other p = false) by (destruct p; cbn in *; congruence).
-  destruct (success (model (mkInput r e c rg p g pl pv))) eqn:Hs; [|reflexivity].
-  assert (Hcv : forall b, cred_valid c rg p b = false).
-  { intro b. unfold cred_valid. rewrite Hp, Ha.
+  destruct (success (model (mkInput r e c rg p g pl pv ar))) eqn:Hs; [|reflexivity].
+  assert (Hcv : forall b, cred_valid_lax c rg p b = false).
+  { intro b. unfold cred_valid_lax. rewrite Hp, Ha.
     destruct (r_meth rg); try discriminate Hm; cbn; now rewrite andb_false_r. }
-  destruct (known_gap (mkInput r e c rg p g pl pv)) eqn:Hg.
+  destruct (known_gap (mkInput r e c rg p g pl pv ar)) eqn:Hg.
   - unfold known_gap in Hg; cbn [i_router i_endpoint i_grant i_reg] in Hg.
     destruct r, e, g; try discriminate Hg. apply negb_true_iff in Hg.
-    destruct (token_gap c rg p pl pv Hg Hno Hs) as [_ Hc]. rewrite Hcv in Hc. discriminate Hc.
-  - pose proof (justified_model _ Hg Hno Hs) as Hj. unfold justified in Hj; cbn [i_endpoint i_cfg i_reg i_pres i_grant] in Hj.
+    destruct (token_gap_lax c rg p pl pv ar Hg Hno Hs) as [_ Hc]. rewrite Hcv in Hc. discriminate Hc.
+  - pose proof (justified_lax_model _ Hg Hno Hs) as Hj. unfold justified_lax in Hj; cbn [i_endpoint i_cfg i_reg i_pres i_grant] in Hj.
     destruct e; try congruence.
-    + unfold token_justified in Hj. rewrite Hcv in Hj.
+    + unfold token_justified_lax in Hj. rewrite Hcv in Hj.
       destruct g; try congruence; rewrite ?andb_false_r in Hj; discriminate Hj.
     + unfold introspect_justified, authenticated in Hj. rewrite Hp, Ha in Hj.
       rewrite ?andb_false_r in Hj. discriminate Hj.
@@ -347,48 +525,48 @@ Qed.
 
 (* a grant that is not registered for the client yields no token (outside the recorded gap),
    and no device code *)
-Lemma unregistered_grant_refused : forall r c rg p g pl pv,
+Lemma unregistered_grant_refused : forall r c rg p g pl pv ar,
   registered rg g = false -> g <> GBearer -> (r = RProvider /\ g = GDevice -> False) ->
   names_other p = false ->
-  success (model (mkInput r EToken c rg p g pl pv)) = false.
+  success (model (mkInput r EToken c rg p g pl pv ar)) = false.
 Proof.
-  intros r c rg p g pl pv Hn Hb Hgap Hno.
-  destruct (success (model (mkInput r EToken c rg p g pl pv))) eqn:Hs; [|reflexivity].
-  assert (Hj : token_justified c rg p g = true).
-  { apply (token_partial r c rg p g pl pv); [|exact Hno|exact Hs]. intros [H1 [H2 _]]. now apply Hgap. }
-  unfold token_justified in Hj. rewrite Hn in Hj.
+  intros r c rg p g pl pv ar Hn Hb Hgap Hno.
+  destruct (success (model (mkInput r EToken c rg p g pl pv ar))) eqn:Hs; [|reflexivity].
+  assert (Hj : token_justified_lax c rg p g = true).
+  { apply (token_partial_lax r c rg p g pl pv ar); [|exact Hno|exact Hs]. intros [H1 [H2 _]]. now apply Hgap. }
+  unfold token_justified_lax in Hj. rewrite Hn in Hj.
   destruct g; try congruence; rewrite ?andb_false_r in Hj; cbn in Hj; discriminate.
 Qed.
 
-Lemma unregistered_device_grant_no_device_code : forall r c rg p g pl pv,
+Lemma unregistered_device_grant_no_device_code : forall r c rg p g pl pv ar,
   registered rg GDevice = false -> names_other p = false ->
-  success (model (mkInput r EDeviceAuthz c rg p g pl pv)) = false.
+  success (model (mkInput r EDeviceAuthz c rg p g pl pv ar)) = false.
 Proof.
-  intros r c rg p g pl pv Hn Hno.
-  destruct (success (model (mkInput r EDeviceAuthz c rg p g pl pv))) eqn:Hs; [|reflexivity].
-  destruct (device_authz_statement r c rg p g pl pv Hno Hs) as [_ [_ H]]. congruence.
+  intros r c rg p g pl pv ar Hn Hno.
+  destruct (success (model (mkInput r EDeviceAuthz c rg p g pl pv ar))) eqn:Hs; [|reflexivity].
+  destruct (device_authz_statement r c rg p g pl pv ar Hno Hs) as [_ [_ H]]. congruence.
 Qed.
 
 (* a disabled grant (provider flag or storage capability off) yields no token *)
-Lemma disabled_grant_refused : forall r c rg p g pl pv,
+Lemma disabled_grant_refused : forall r c rg p g pl pv ar,
   capability c g = false -> names_other p = false ->
-  success (model (mkInput r EToken c rg p g pl pv)) = false.
+  success (model (mkInput r EToken c rg p g pl pv ar)) = false.
 Proof.
-  intros r c rg p g pl pv Hc Hno.
-  destruct (success (model (mkInput r EToken c rg p g pl pv))) eqn:Hs; [|reflexivity].
-  destruct (known_gap (mkInput r EToken c rg p g pl pv)) eqn:Hg.
+  intros r c rg p g pl pv ar Hc Hno.
+  destruct (success (model (mkInput r EToken c rg p g pl pv ar))) eqn:Hs; [|reflexivity].
+  destruct (known_gap (mkInput r EToken c rg p g pl pv ar)) eqn:Hg.
   - unfold known_gap in Hg; cbn [i_router i_endpoint i_grant i_reg] in Hg.
     destruct r, g; try discriminate Hg. apply negb_true_iff in Hg.
-    destruct (token_gap c rg p pl pv Hg Hno Hs) as [Hd _]. cbn in Hc. congruence.
-  - pose proof (token_success_justified (mkInput r EToken c rg p g pl pv) eq_refl Hg Hno Hs) as Hj. cbn [i_cfg i_reg i_pres i_grant] in Hj.
-    unfold token_justified in Hj. rewrite Hc in Hj. destruct g; cbn in *; discriminate.
+    destruct (token_gap c rg p pl pv ar Hg Hno Hs) as [Hd _]. cbn in Hc. congruence.
+  - pose proof (token_success_justified_lax (mkInput r EToken c rg p g pl pv ar) eq_refl Hg Hno Hs) as Hj. cbn [i_cfg i_reg i_pres i_grant] in Hj.
+    unfold token_justified_lax in Hj. rewrite Hc in Hj. destruct g; cbn in *; discriminate.
 Qed.
 
 (* No guard keeps state between requests: the answer does not depend on what the provider
    served before (the correspondence run sends a fully credentialed request of a third client
    first and compares with this model). *)
-Lemma history_independent : forall r e c rg p g pl pv pv',
-  model (mkInput r e c rg p g pl pv) = model (mkInput r e c rg p g pl pv').
+Lemma history_independent : forall r e c rg p g pl pv pv' ar,
+  model (mkInput r e c rg p g pl pv ar) = model (mkInput r e c rg p g pl pv' ar).
 Proof. reflexivity. Qed.
 
 (* The storage contract lets the EMPTY secret match a client without a stored secret
@@ -404,24 +582,24 @@ Lemma storage_accepts_empty_secret : forall rg,
   r_known rg = true -> has_secret (r_meth rg) = false -> storage_secret_ok rg SEmpty = true.
 Proof. intros rg Hk Hs. unfold storage_secret_ok. now rewrite Hk, Hs. Qed.
 
-Lemma hollow_credential_refused : forall r e c rg p g pl pv,
+Lemma hollow_credential_refused : forall r e c rg p g pl pv ar,
   hollow p = true ->
   e = EIntrospect \/ (e = EToken /\ (g = GTE \/ g = GCC)) ->
-  success (model (mkInput r e c rg p g pl pv)) = false.
+  success (model (mkInput r e c rg p g pl pv ar)) = false.
 Proof.
-  intros r e c rg p g pl pv Hh He.
-  destruct (success (model (mkInput r e c rg p g pl pv))) eqn:Hs; [|reflexivity].
+  intros r e c rg p g pl pv ar Hh He.
+  destruct (success (model (mkInput r e c rg p g pl pv ar))) eqn:Hs; [|reflexivity].
   assert (Hno : names_other p = false) by (destruct p; try discriminate Hh; reflexivity).
   assert (Hp : presents_right_secret p = false)
     by (destruct p as [| |[] ?| |[]|[]|[]| | | |[] []|?|?|?|?|?|[] []|?]; try discriminate Hh; reflexivity).
   assert (Ha : presents_ok_assertion p = false) by (destruct p; try discriminate Hh; reflexivity).
   destruct He as [->|[-> Hg]].
-  - pose proof (introspect_statement r c rg p g pl pv Hno Hs) as H.
+  - pose proof (introspect_statement r c rg p g pl pv ar Hno Hs) as H.
     unfold authenticated in H. rewrite Hp, Ha, !andb_false_r in H. destruct (r_known rg); discriminate H.
-  - assert (Hj : token_justified c rg p g = true).
-    { apply (token_partial r c rg p g pl pv); [|exact Hno|exact Hs].
+  - assert (Hj : token_justified_lax c rg p g = true).
+    { apply (token_partial_lax r c rg p g pl pv ar); [|exact Hno|exact Hs].
       intros [_ [H2 _]]. destruct Hg; congruence. }
-    unfold token_justified, cred_valid in Hj. rewrite Hp, Ha in Hj.
+    unfold token_justified_lax, cred_valid_lax in Hj. rewrite Hp, Ha in Hj.
     destruct Hg; subst g; destruct (r_meth rg); cbn in Hj; rewrite ?andb_false_r in Hj; discriminate Hj.
 Qed.
 
@@ -432,37 +610,37 @@ Definition all_on := mkCfg true true true true true true true false.
 
 Example token_nonvacuous :
   forallb (fun r => forallb (fun g =>
-    success (model (mkInput r EToken all_on (mkReg true MBasic AWeb all_grants true) (PBasic SRight true) g std_pl NoPrev)))
+    success (model (mkInput r EToken all_on (mkReg true MBasic AWeb all_grants true) (PBasic SRight true) g std_pl NoPrev ArtOk)))
     [GCode; GRefresh; GCC; GBearer; GTE; GDevice]) [RProvider; RLegacy] = true.
 Proof. vm_compute. reflexivity. Qed.
 
 Example token_nonvacuous_pkjwt_public :
   forallb (fun r =>
-    success (model (mkInput r EToken all_on (mkReg true MPKJWT AWeb all_grants true) (PAssert AOk) GCode std_pl NoPrev))
-    && success (model (mkInput r EToken all_on (mkReg true MNone ANative all_grants false) PIdOnly GRefresh std_pl NoPrev))
-    && success (model (mkInput r EToken all_on (mkReg true MPost AWeb all_grants false) (PPost SRight) GCode std_pl NoPrev)))
+    success (model (mkInput r EToken all_on (mkReg true MPKJWT AWeb all_grants true) (PAssert AOk) GCode std_pl NoPrev ArtOk))
+    && success (model (mkInput r EToken all_on (mkReg true MNone ANative all_grants false) PIdOnly GRefresh std_pl NoPrev ArtOk))
+    && success (model (mkInput r EToken all_on (mkReg true MPost AWeb all_grants false) (PPost SRight) GCode std_pl NoPrev ArtOk)))
     [RProvider; RLegacy] = true.
 Proof. vm_compute. reflexivity. Qed.
 
 Example other_endpoints_nonvacuous :
   forallb (fun r => forallb (fun e =>
-    success (model (mkInput r e all_on (mkReg true MBasic AWeb all_grants true) (PBasic SRight false) GMissing std_pl NoPrev)))
+    success (model (mkInput r e all_on (mkReg true MBasic AWeb all_grants true) (PBasic SRight false) GMissing std_pl NoPrev ArtOk)))
     [EIntrospect; ERevoke; EDeviceAuthz]) [RProvider; RLegacy] = true.
 Proof. vm_compute. reflexivity. Qed.
 
 Example refusal_nonvacuous :
-  model (mkInput RLegacy EToken all_on (mkReg true MBasic AWeb all_grants true) (PBasic SWrong false) GCode std_pl NoPrev)
+  model (mkInput RLegacy EToken all_on (mkReg true MBasic AWeb all_grants true) (PBasic SWrong false) GCode std_pl NoPrev ArtOk)
   = ORes S4 EInvalidClient false false WNone.
 Proof. vm_compute. reflexivity. Qed.
 
 (* cross-client requests: X's valid credential with Y's id and Y's artefact acts for X or not at all *)
 Example cross_nonvacuous :
   let x := mkReg true MBasic AWeb all_grants true in
-  model (mkInput RProvider ERevoke all_on x (PXBasic (mkV MBasic true)) GMissing std_pl NoPrev) = ORes S4 EInvalidClient false false WNone
-  /\ model (mkInput RLegacy EToken all_on x (PXBasic (mkV MBasic true)) GCode std_pl NoPrev) = ORes S4 EInvalidGrant false false WNone
-  /\ model (mkInput RProvider EToken all_on x (PXAssert (mkV MBasic true)) GCC std_pl NoPrev) = ORes S4 EInvalidClient false false WNone
-  /\ model (mkInput RLegacy EToken all_on x (PXBasic (mkV MBasic true)) GCC std_pl NoPrev) = ORes S2 ENone true false WSelf
-  /\ model (mkInput RProvider EIntrospect all_on x (PXAssert (mkV MBasic true)) GMissing std_pl NoPrev) = ORes S2 ENone false false WNone.
+  model (mkInput RProvider ERevoke all_on x (PXBasic (mkV MBasic true)) GMissing std_pl NoPrev ArtOk) = ORes S4 EInvalidClient false false WNone
+  /\ model (mkInput RLegacy EToken all_on x (PXBasic (mkV MBasic true)) GCode std_pl NoPrev ArtOk) = ORes S4 EInvalidGrant false false WNone
+  /\ model (mkInput RProvider EToken all_on x (PXAssert (mkV MBasic true)) GCC std_pl NoPrev ArtOk) = ORes S4 EInvalidClient false false WNone
+  /\ model (mkInput RLegacy EToken all_on x (PXBasic (mkV MBasic true)) GCC std_pl NoPrev ArtOk) = ORes S2 ENone true false WSelf
+  /\ model (mkInput RProvider EIntrospect all_on x (PXAssert (mkV MBasic true)) GMissing std_pl NoPrev ArtOk) = ORes S2 ENone false false WNone.
 Proof. vm_compute. repeat split; reflexivity. Qed.
 
 (* where parameters travel: a device_code in the URL query is not read by the Provider router;
@@ -472,19 +650,40 @@ Proof. vm_compute. repeat split; reflexivity. Qed.
 Example placement_nonvacuous :
   let x := mkReg true MBasic AWeb all_grants true in
   let nogrant := mkReg true MBasic AWeb [GCode] true in
-  model (mkInput RProvider EToken all_on x (PBasic SRight false) GDevice (mkPl GPBody InBody InQuery) NoPrev)
+  model (mkInput RProvider EToken all_on x (PBasic SRight false) GDevice (mkPl GPBody InBody InQuery) NoPrev ArtOk)
     = ORes S4 EAccessDenied false false WNone
-  /\ model (mkInput RLegacy EToken all_on x (PBasic SRight false) GDevice (mkPl GPQuery InQuery InQuery) NoPrev)
+  /\ model (mkInput RLegacy EToken all_on x (PBasic SRight false) GDevice (mkPl GPQuery InQuery InQuery) NoPrev ArtOk)
     = ORes S2 ENone true false WSelf
-  /\ model (mkInput RLegacy EToken all_on nogrant (PBasic SRight false) GTE (mkPl GPQuery InBody InBody) NoPrev)
+  /\ model (mkInput RLegacy EToken all_on nogrant (PBasic SRight false) GTE (mkPl GPQuery InBody InBody) NoPrev ArtOk)
     = ORes S4 EUnauthorizedClient false false WNone
-  /\ model (mkInput RLegacy EToken all_on x (PXDup (mkV MBasic true)) GCode std_pl NoPrev)
+  /\ model (mkInput RLegacy EToken all_on x (PXDup (mkV MBasic true)) GCode std_pl NoPrev ArtOk)
     = ORes S4 EInvalidClient false false WNone
-  /\ model (mkInput RLegacy EToken all_on (mkReg true MPKJWT AWeb all_grants true) (PXAssert (mkV MPKJWT true)) GCode std_pl NoPrev)
+  /\ model (mkInput RLegacy EToken all_on (mkReg true MPKJWT AWeb all_grants true) (PXAssert (mkV MPKJWT true)) GCode std_pl NoPrev ArtOk)
     = ORes S4 EInvalidGrant false false WNone
-  /\ model (mkInput RLegacy EToken all_on x (PXPost (mkV MNone true)) GCode std_pl NoPrev)
+  /\ model (mkInput RLegacy EToken all_on x (PXPost (mkV MNone true)) GCode std_pl NoPrev ArtOk)
     = ORes S2 ENone true false WOther.
 Proof. vm_compute. repeat split; reflexivity. Qed.
 
 Example known_gap_nonvacuous : known_gap gap_witness = true /\ success (model gap_witness) = true.
 Proof. split; vm_compute; reflexivity. Qed.
+
+(* round 11: where the secret travels x AuthMethodPost.  The input of seeded regression C05-S (Provider
+   router, token exchange, AuthMethodPost off, client_secret_basic client, exact secret in the form)
+   is refused, the same secret in the Authorization header is served; a client_secret_post client is
+   served by the form while the flag is on and refused everywhere while it is off; the recorded
+   class (Fxx-C05-6) is not empty. *)
+Definition post_off := mkCfg false true true true true true true false.
+Example post_flag_nonvacuous :
+  let bas := mkReg true MBasic AWeb all_grants false in
+  let pst := mkReg true MPost AWeb all_grants false in
+  model (mkInput RProvider EToken post_off bas (PPost SRight) GTE std_pl NoPrev ArtOk) = ORes S4 EInvalidClient false false WNone
+  /\ post_gap (mkInput RProvider EToken post_off bas (PPost SRight) GTE std_pl NoPrev ArtOk) = false
+  /\ success (model (mkInput RProvider EToken post_off bas (PBasic SRight false) GTE std_pl NoPrev ArtOk)) = true
+  /\ success (model (mkInput RProvider EToken all_on pst (PPost SRight) GRefresh std_pl NoPrev ArtOk)) = true
+  /\ forallb (fun r => forallb (fun g =>
+        negb (success (model (mkInput r EToken post_off pst (PPost SRight) g std_pl NoPrev ArtOk)))
+        && negb (success (model (mkInput r EToken post_off pst (PBasic SRight false) g std_pl NoPrev ArtOk))))
+        [GCode; GRefresh; GCC; GTE; GDevice]) [RProvider; RLegacy] = true
+  /\ post_gap post_gap_witness = true /\ success (model post_gap_witness) = true
+  /\ token_justified (i_cfg post_gap_witness) (i_reg post_gap_witness) (i_pres post_gap_witness) GCode = false.
+Proof. vm_compute. repeat split; reflexivity. Qed.
